@@ -1184,3 +1184,372 @@ Proof.
     inversion V; subst. apply parse_time_hm; assumption.
   - destruct OK as (NE & F). apply (parse_time_pairs pf c cv per); assumption.
 Qed.
+
+(* ------------------------------------------------------------------ 6. locale *)
+
+Lemma letter_facts a : Doc.ascii_letter a = true -> utf8_len a = 1 /\ (a =? 95) = false /\ is_ascii_alpha a = true.
+Proof.
+  intro H. split; [|split; [|exact H]].
+  - unfold utf8_len. replace (a <? 128) with true; [reflexivity|]. symmetry. apply N.ltb_lt.
+    unfold Doc.ascii_letter in H. apply orb_true_iff in H as [H|H]; apply andb_true_iff in H as [_ H];
+      apply N.leb_le in H; lia.
+  - apply N.eqb_neq. unfold Doc.ascii_letter in H.
+    apply orb_true_iff in H as [H|H]; apply andb_true_iff in H as [H1 H2];
+      apply N.leb_le in H1; apply N.leb_le in H2; lia.
+Qed.
+
+Lemma locale_part_ok_iff s :
+  locale_part_ok s = true
+  <-> exists a b, s = [a; b] /\ Doc.ascii_letter a = true /\ Doc.ascii_letter b = true.
+Proof.
+  unfold locale_part_ok. split.
+  - intro H. apply andb_true_iff in H as [L A]. apply N.eqb_eq in L.
+    destruct s as [|a [|b [|c r]]]; cbn [blen forallb_n] in *.
+    + discriminate.
+    + apply andb_true_iff in A as [A _]. destruct (letter_facts a A) as (U & _). rewrite U in L. discriminate.
+    + apply andb_true_iff in A as [A B]. apply andb_true_iff in B as [B _]. exists a, b. auto.
+    + apply andb_true_iff in A as [A B]. apply andb_true_iff in B as [B C]. apply andb_true_iff in C as [C _].
+      destruct (letter_facts a A) as (U1 & _). destruct (letter_facts b B) as (U2 & _).
+      destruct (letter_facts c C) as (U3 & _). rewrite U1, U2, U3 in L.
+      generalize dependent (blen r). intros. lia.
+  - intros (a & b & -> & A & B). destruct (letter_facts a A) as (U1 & _ & A'). destruct (letter_facts b B) as (U2 & _ & B').
+    cbn [blen forallb_n]. rewrite U1, U2, A', B'. reflexivity.
+Qed.
+
+Lemma split_once_spec d s : forall pre a b,
+  split_once d pre s = Some (a, b) -> rev pre ++ s = a ++ d :: b.
+Proof.
+  induction s as [|c r IH]; intros pre a b; cbn [split_once]; [discriminate|].
+  destruct (c =? d) eqn:E.
+  - apply N.eqb_eq in E. subst c. intro H. inversion H; subst. reflexivity.
+  - intro H. apply IH in H. cbn [rev] in H. rewrite <- app_assoc in H. exact H.
+Qed.
+
+Lemma locale_iff s l d : value_as_locale (YStr s) = Some (l, d) <-> Doc.locale s l d.
+Proof.
+  unfold value_as_locale, as_str. cbn [untag]. split.
+  - destruct (split_once 95 [] s) as [[lang dial]|] eqn:E.
+    + destruct (locale_part_ok lang) eqn:L1; [|discriminate].
+      destruct (locale_part_ok dial) eqn:L2; [|discriminate]. cbn [andb]. intro H. inversion H; subst.
+      apply split_once_spec in E. cbn [rev app] in E.
+      apply locale_part_ok_iff in L1 as (a & b & -> & A & B).
+      apply locale_part_ok_iff in L2 as (c & e & -> & C & D). subst s. constructor; assumption.
+    + destruct (locale_part_ok s) eqn:L; [|discriminate]. intro H. inversion H; subst.
+      apply locale_part_ok_iff in L as (a & b & -> & A & B). constructor; assumption.
+  - intro H. inversion H as [a b A B|a b c e A B C D]; subst.
+    + destruct (letter_facts a A) as (_ & NA & _). destruct (letter_facts b B) as (_ & NB & _).
+      cbn [split_once]. rewrite NA, NB.
+      replace (locale_part_ok [a; b]) with true; [reflexivity|].
+      symmetry. apply locale_part_ok_iff. exists a, b. auto.
+    + destruct (letter_facts a A) as (_ & NA & _). destruct (letter_facts b B) as (_ & NB & _).
+      cbn [split_once]. rewrite NA, NB. change (95 =? 95) with true. cbv iota. cbn [rev app].
+      replace (locale_part_ok [a; b]) with true by (symmetry; apply locale_part_ok_iff; exists a, b; auto).
+      replace (locale_part_ok [c; e]) with true by (symmetry; apply locale_part_ok_iff; exists c, e; auto).
+      reflexivity.
+Qed.
+
+Lemma locale_non_string v : as_str v = None -> value_as_locale v = None.
+Proof. unfold value_as_locale. intros ->. reflexivity. Qed.
+
+(* ------------------------------------------------------------------ 6. tags *)
+
+Lemma mem_str_iff k l : mem_str k l = true <-> In k l.
+Proof.
+  split; [apply mem_str_In|]. induction l as [|x l IH]; cbn [mem_str In]; [contradiction|].
+  intros [->|H]; [rewrite str_eqb_refl; reflexivity|]. rewrite IH by exact H. apply orb_true_r.
+Qed.
+
+Lemma dedup_in l : forall seen x,
+  In x (dedup_nonempty seen l) <-> x <> [] /\ In x l /\ ~ In x seen.
+Proof.
+  induction l as [|t r IH]; intros seen x; cbn [dedup_nonempty In]; [tauto|].
+  destruct t as [|c t'].
+  - rewrite IH. split; [tauto|]. intros (A & [B|B] & C); [congruence|tauto].
+  - destruct (mem_str (c :: t') seen) eqn:M.
+    + apply mem_str_iff in M. rewrite IH. split; [tauto|]. intros (A & [B|B] & C); [subst; tauto|tauto].
+    + assert (NM : ~ In (c :: t') seen) by (intro K; apply mem_str_iff in K; congruence).
+      cbn [In]. rewrite IH. cbn [In]. split.
+      * intros [<-|(A & B & C)]; [split; [discriminate|tauto]|tauto].
+      * intros (A & [B|B] & C); [left; exact B|].
+        destruct (list_eq_dec N.eq_dec (c :: t') x) as [E|E]; [left; exact E|right; tauto].
+Qed.
+
+Lemma dedup_nodup l : forall seen, NoDup (dedup_nonempty seen l).
+Proof.
+  induction l as [|t r IH]; intro seen; cbn [dedup_nonempty]; [constructor|].
+  destruct t as [|c t']; [apply IH|]. destruct (mem_str (c :: t') seen); [apply IH|].
+  constructor; [|apply IH]. rewrite dedup_in. cbn [In]. tauto.
+Qed.
+
+Lemma dedup_subseq l : forall seen, Doc.subseq (dedup_nonempty seen l) l.
+Proof.
+  induction l as [|t r IH]; intro seen; cbn [dedup_nonempty]; [constructor|].
+  destruct t as [|c t']; [constructor; apply IH|].
+  destruct (mem_str (c :: t') seen); constructor; apply IH.
+Qed.
+
+Lemma tags_of_dedup entries : Doc.tags_of entries (dedup_nonempty [] entries).
+Proof.
+  split; [apply dedup_nodup|]. split; [rewrite dedup_in; tauto|].
+  split; [intro x; rewrite dedup_in; cbn [In]; tauto|apply dedup_subseq].
+Qed.
+
+Lemma split_on_nosep d p : forall cur, ~ In d p -> split_on d cur p = [rev cur ++ p].
+Proof.
+  induction p as [|c p IH]; intros cur H; cbn [split_on]; [rewrite app_nil_r; reflexivity|].
+  destruct (c =? d) eqn:E; [apply N.eqb_eq in E; subst; exfalso; apply H; left; reflexivity|].
+  rewrite IH by (intro K; apply H; right; exact K). cbn [rev]. rewrite <- app_assoc. reflexivity.
+Qed.
+
+Lemma split_on_sep d p : forall cur r,
+  ~ In d p -> split_on d cur (p ++ d :: r) = (rev cur ++ p) :: split_on d [] r.
+Proof.
+  induction p as [|c p IH]; intros cur r H; cbn [app split_on].
+  - rewrite N.eqb_refl, app_nil_r. reflexivity.
+  - destruct (c =? d) eqn:E; [apply N.eqb_eq in E; subst; exfalso; apply H; left; reflexivity|].
+    rewrite IH by (intro K; apply H; right; exact K). cbn [rev]. rewrite <- app_assoc. reflexivity.
+Qed.
+
+Lemma split_on_join d pieces :
+  pieces <> [] -> Doc.no_sep d pieces -> split_on d [] (Doc.join d pieces) = pieces.
+Proof.
+  induction pieces as [|p r IH]; [congruence|]. intros _ NS.
+  assert (NP : ~ In d p) by (apply NS; left; reflexivity).
+  destruct r as [|q r'].
+  - cbn [Doc.join]. apply split_on_nosep, NP.
+  - change (Doc.join d (p :: q :: r')) with (p ++ d :: Doc.join d (q :: r')).
+    rewrite split_on_sep by exact NP. cbn [rev app]. f_equal.
+    apply IH; [discriminate|]. intros x I. apply NS. right. exact I.
+Qed.
+
+Lemma tags_string pieces :
+  pieces <> [] -> Doc.no_sep 44 pieces ->
+  exists l, value_as_tags (YStr (Doc.join 44 pieces)) = Some l /\ Doc.tags_of (map trim pieces) l.
+Proof.
+  intros NE NS. unfold value_as_tags, as_str. cbn [untag].
+  rewrite split_on_join by assumption. eexists. split; [reflexivity|apply tags_of_dedup].
+Qed.
+
+Lemma all_some_strs entries : all_some (map as_str_like (map YStr entries)) = Some entries.
+Proof.
+  induction entries as [|e r IH]; [reflexivity|]. cbn [map all_some].
+  change (as_str_like (YStr e)) with (Some e). cbv iota. rewrite IH. reflexivity.
+Qed.
+
+Lemma tags_list entries :
+  exists l, value_as_tags (YSeq (map YStr entries)) = Some l /\ Doc.tags_of entries l.
+Proof.
+  unfold value_as_tags, as_str, as_sequence. cbn [untag]. rewrite all_some_strs.
+  eexists. split; [reflexivity|apply tags_of_dedup].
+Qed.
+
+Lemma tags_any v l : value_as_tags v = Some l -> NoDup l /\ ~ In [] l.
+Proof.
+  unfold value_as_tags.
+  destruct (match as_str v with
+            | Some s => Some (map trim (split_on 44 [] s))
+            | None => match as_sequence v with
+                      | Some seq => all_some (map as_str_like seq)
+                      | None => None
+                      end
+            end) as [e|]; [|discriminate].
+  intro H. inversion H; subst. split; [apply dedup_nodup|]. rewrite dedup_in. tauto.
+Qed.
+
+(* ------------------------------------------------------------------ 6. servings *)
+
+Lemma mem_n_iff x l : mem_n x l = true <-> In x l.
+Proof.
+  induction l as [|y l IH]; cbn [mem_n In]; [split; [discriminate|contradiction]|].
+  rewrite orb_true_iff, N.eqb_eq, IH. split; intros [H|H]; auto.
+Qed.
+
+Lemma has_dup_false_iff l : has_dup l = false <-> NoDup l.
+Proof.
+  induction l as [|x l IH]; cbn [has_dup]; [split; [constructor|reflexivity]|].
+  rewrite orb_false_iff, IH. split.
+  - intros (M & D). constructor; [|exact D]. intro I. apply mem_n_iff in I. congruence.
+  - intro H. inversion H; subst. split; [|assumption].
+    destruct (mem_n x l) eqn:M; [apply mem_n_iff in M; contradiction|reflexivity].
+Qed.
+
+Lemma servings_finish ns : Doc.servings ns (if has_dup ns then None else Some ns).
+Proof.
+  destruct (has_dup ns) eqn:D; [right|left]; split; try reflexivity.
+  - intro N. apply has_dup_false_iff in N. congruence.
+  - apply has_dup_false_iff, D.
+Qed.
+
+Lemma servings_any v l : value_as_servings v = Some l -> NoDup l.
+Proof.
+  unfold value_as_servings.
+  destruct (match as_u32 v with
+            | Some n => Some [n]
+            | None => match as_str v with
+                      | Some s => all_some (map (fun e => extract_value (trim e)) (split_on 124 [] s))
+                      | None => match as_sequence v with
+                                | Some seq => all_some (map serving_entry seq)
+                                | None => None
+                                end
+                      end
+            end) as [l'|]; [|discriminate].
+  destruct (has_dup l') eqn:D; [discriminate|]. intro H. inversion H; subst. apply has_dup_false_iff, D.
+Qed.
+
+Lemma servings_number v n : as_u32 v = Some n -> value_as_servings v = Some [n].
+Proof. intro H. unfold value_as_servings. rewrite H. reflexivity. Qed.
+
+Lemma servings_list ns :
+  Forall (fun n => n < two32) ns ->
+  value_as_servings (YSeq (map (fun n => YNum (Some n) (print_nat n)) ns))
+  = if has_dup ns then None else Some ns.
+Proof.
+  intro F. unfold value_as_servings, as_u32, as_u64, as_str, as_sequence. cbn [untag].
+  assert (A : all_some (map serving_entry (map (fun n => YNum (Some n) (print_nat n)) ns)) = Some ns).
+  { induction F as [|n r L _ IH]; [reflexivity|]. cbn [map all_some].
+    unfold serving_entry at 1, as_u32, as_u64. cbn [untag]. apply N.ltb_lt in L. rewrite L, IH. reflexivity. }
+  rewrite A. reflexivity.
+Qed.
+
+Lemma take_drop_while p l : l = take_while p l ++ drop_while p l.
+Proof.
+  induction l as [|c l IH]; cbn [take_while drop_while]; [reflexivity|].
+  destruct (p c); [cbn [app]; f_equal; exact IH|reflexivity].
+Qed.
+
+Lemma trim_end_prefix y : exists w, y = trim_end y ++ w.
+Proof.
+  unfold trim_end. exists (rev (take_while uni_ws (rev y))).
+  rewrite <- rev_app_distr, <- take_drop_while, rev_involutive. reflexivity.
+Qed.
+
+Lemma drop_while_app p a b :
+  drop_while p (a ++ b) = match drop_while p a with [] => drop_while p b | r => r ++ b end.
+Proof.
+  induction a as [|c a IH]; cbn [app drop_while]; [reflexivity|].
+  destruct (p c); [exact IH|reflexivity].
+Qed.
+
+Lemma trim_end_keep D y x D' :
+  rev D = x :: D' -> uni_ws x = false -> trim_end (D ++ y) = D ++ trim_end y.
+Proof.
+  intros R X. unfold trim_end. rewrite rev_app_distr, drop_while_app.
+  destruct (drop_while uni_ws (rev y)) as [|c r].
+  - rewrite R. cbn [drop_while]. rewrite X, <- R, rev_involutive, app_nil_r. reflexivity.
+  - rewrite rev_app_distr, rev_involutive. reflexivity.
+Qed.
+
+Lemma alnum_not_ws c : is_ascii_alnum c = true -> uni_ws c = false.
+Proof.
+  intro H. assert (R : 48 <= c <= 122).
+  { unfold is_ascii_alnum, is_digit, is_ascii_alpha in H.
+    repeat (apply orb_true_iff in H as [H|H]); apply andb_true_iff in H as [H1 H2];
+      apply N.leb_le in H1; apply N.leb_le in H2; lia. }
+  unfold uni_ws.
+  repeat match goal with |- context [?a =? ?b] => replace (a =? b) with false by (symmetry; apply N.eqb_neq; lia) end.
+  replace (c <=? 13) with false by (symmetry; apply N.leb_gt; lia).
+  replace (8192 <=? c) with false by (symmetry; apply N.leb_gt; lia).
+  rewrite !andb_false_r. reflexivity.
+Qed.
+
+Lemma doc_alnum c : Doc.ascii_alnum c = is_ascii_alnum c.
+Proof. unfold Doc.ascii_alnum, is_ascii_alnum, is_digit, is_ascii_alpha. rewrite orb_assoc. reflexivity. Qed.
+
+Lemma digits_alnum d : forallb is_digit d = true -> forallb is_ascii_alnum d = true.
+Proof.
+  rewrite !forallb_forall. intros H c I. unfold is_ascii_alnum. rewrite (H c I). reflexivity.
+Qed.
+
+(* one documented entry of a servings string gives its number *)
+Lemma extract_serving pad1 n text pad2 :
+  Doc.blank pad1 = true -> Doc.blank pad2 = true -> n < two32 -> Doc.text_ok text = true ->
+  extract_value (trim (Doc.print_serving pad1 n text pad2)) = Some n.
+Proof.
+  intros B1 B2 R TX. unfold Doc.print_serving, trim, trim_start.
+  pose proof (print_nat_digits n) as D. pose proof (parse_u32_print n R) as P.
+  assert (RV : exists x D', rev (print_nat n) = x :: D' /\ uni_ws x = false).
+  { destruct (rev (print_nat n)) as [|x D'] eqn:E.
+    - apply (f_equal (@rev N)) in E. rewrite rev_involutive in E. apply print_nat_nonempty in E. contradiction.
+    - exists x, D'. split; [reflexivity|]. rewrite <- forallb_rev, E in D. cbn [forallb] in D.
+      apply andb_true_iff in D as [D _]. apply digit_not_ws, D. }
+  destruct RV as (x & D' & RV & XW).
+  destruct (print_nat n) as [|d ds] eqn:E; [apply print_nat_nonempty in E; contradiction|].
+  assert (DW : uni_ws d = false).
+  { cbn [forallb] in D. apply andb_true_iff in D as [D0 _]. apply digit_not_ws, D0. }
+  cbn [app]. rewrite (drop_while_stop uni_ws pad1 d _ B1 DW).
+  change (d :: ds ++ text ++ pad2) with ((d :: ds) ++ text ++ pad2).
+  rewrite (trim_end_keep _ _ x D' RV XW). unfold extract_value.
+  destruct (trim_end_prefix (text ++ pad2)) as (w & W).
+  destruct (trim_end (text ++ pad2)) as [|c z].
+  - rewrite app_nil_r, take_while_all by (apply digits_alnum, D). exact P.
+  - assert (CA : is_ascii_alnum c = false).
+    { destruct text as [|t0 text'].
+      - cbn [app] in W. destruct pad2 as [|p0 pad2']; [discriminate|]. inversion W; subst.
+        unfold Doc.blank in B2. cbn [forallb] in B2. apply andb_true_iff in B2 as [B2 _].
+        destruct (is_ascii_alnum c) eqn:A; [apply alnum_not_ws in A; congruence|reflexivity].
+      - cbn [app] in W. inversion W; subst. cbn [Doc.text_ok] in TX. rewrite doc_alnum in TX.
+        apply negb_true_iff in TX. exact TX. }
+    rewrite (take_while_stop is_ascii_alnum _ c z (digits_alnum _ D) CA). exact P.
+Qed.
+
+Definition sv_entry := (str * N * str * str)%type.
+Definition sv_print (e : sv_entry) : str :=
+  match e with (p1, n, tx, p2) => Doc.print_serving p1 n tx p2 end.
+Definition sv_num (e : sv_entry) : N := match e with (_, n, _, _) => n end.
+Definition sv_ok (e : sv_entry) : Prop :=
+  match e with
+  | (p1, n, tx, p2) => Doc.blank p1 = true /\ Doc.blank p2 = true /\ n < two32 /\ Doc.text_ok tx = true
+  end.
+
+Lemma servings_string es :
+  es <> [] -> Forall sv_ok es -> Doc.no_sep 124 (map sv_print es) ->
+  value_as_servings (YStr (Doc.join 124 (map sv_print es)))
+  = if has_dup (map sv_num es) then None else Some (map sv_num es).
+Proof.
+  intros NE F NS. unfold value_as_servings, as_u32, as_u64, as_str. cbn [untag].
+  rewrite split_on_join; [|destruct es; [congruence|discriminate]|exact NS].
+  assert (A : all_some (map (fun e => extract_value (trim e)) (map sv_print es)) = Some (map sv_num es)).
+  { clear NE NS. induction F as [|e r OK _ IH]; [reflexivity|]. cbn [map all_some].
+    destruct e as [[[p1 n] tx] p2]. destruct OK as (B1 & B2 & R & TX).
+    cbn [sv_print sv_num]. rewrite (extract_serving p1 n tx p2 B1 B2 R TX), IH. reflexivity. }
+  rewrite A. reflexivity.
+Qed.
+
+(* ------------------------------------------------------------------ 6. name and URL *)
+
+Lemma split_once_first d a : forall pre b,
+  ~ In d a -> split_once d pre (a ++ d :: b) = Some (rev pre ++ a, b).
+Proof.
+  induction a as [|c a IH]; intros pre b H; cbn [app split_once].
+  - rewrite N.eqb_refl, app_nil_r. reflexivity.
+  - destruct (c =? d) eqn:E; [apply N.eqb_eq in E; subst; exfalso; apply H; left; reflexivity|].
+    rewrite IH by (intro K; apply H; right; exact K). cbn [rev]. rewrite <- app_assoc. reflexivity.
+Qed.
+
+(* a string that does not end in `>` (ASCII blanks aside): a URL if it is one, else a name *)
+Lemma nu_parse_plain alpha c s :
+  last_is (trim_ascii_end s) 62 = false ->
+  nu_parse alpha c s = if is_url alpha s then nu_new None (Some s) else nu_new (Some s) None.
+Proof. intro H. unfold nu_parse. rewrite H. reflexivity. Qed.
+
+(* `Name <Url>`: name and URL when the URL is valid; else everything is read as a plain string *)
+Lemma nu_parse_bracket alpha c name url pad :
+  fix_url c = true ->
+  ~ In 60 name -> existsb_n is_angle url = false -> forallb ascii_ws pad = true ->
+  let s := Doc.print_bracket name url pad in
+  nu_parse alpha c s
+  = if is_url alpha (trim url) then nu_new (Some name) (Some url)
+    else if is_url alpha s then nu_new None (Some s) else nu_new (Some s) None.
+Proof.
+  intros FU NN NA PD s. unfold nu_parse.
+  assert (T : trim_ascii_end s = (name ++ 60 :: url) ++ [62]).
+  { unfold trim_ascii_end, s, Doc.print_bracket.
+    assert (E : name ++ [60] ++ url ++ [62] ++ pad = ((name ++ 60 :: url) ++ [62]) ++ pad)
+      by (rewrite <- !app_assoc; reflexivity).
+    rewrite E, rev_app_distr, (rev_app_distr (name ++ 60 :: url) [62]). cbn [rev app].
+    rewrite (drop_while_stop ascii_ws (rev pad) 62) by (rewrite ?forallb_rev; (exact PD || reflexivity)).
+    cbn [rev]. rewrite rev_involutive. reflexivity. }
+  fold s. rewrite T, last_is_snoc, removelast_last. change (62 =? 62) with true. cbv iota.
+  rewrite (split_once_first 60 name [] url NN). cbn [rev app]. rewrite FU, NA. cbn [negb andb].
+  destruct (is_url alpha (trim url)); reflexivity.
+Qed.
